@@ -50,6 +50,26 @@ def any_listing(g: nx.Graph, rng) -> nx.Graph:
     return shuffled_listing(g, rng) if rng.random() < 0.5 else g
 
 
+def history_descriptions(g: nx.Graph, c: nx.Graph, rng):
+    """descriptions of the same molecule that have been through the library before: the canonical graph renumbered
+    (it carries partition classes and whatever graph-level attributes the library attached), the input with a
+    coarser partition already on it (by element, as partition_molecule_by_attribute leaves it), the input with
+    arbitrary partition values"""
+    out = []
+    labels = list(c.nodes)
+    sh = list(labels)
+    rng.shuffle(sh)
+    out.append(("renumbered canonical graph", nx.relabel_nodes(c, dict(zip(labels, sh)), copy=True)))
+    p, err = safe(partition_molecule_by_attribute, g, "atomic_number")
+    if p is not None:
+        out.append(("partitioned by element before", p))
+    j = g.copy()
+    for n in j.nodes:
+        j.nodes[n]["partition"] = rng.randint(0, 3)
+    out.append(("arbitrary partition values", j))
+    return out
+
+
 def tucan_of(g: nx.Graph) -> str:
     return serialize_molecule(canonicalize_molecule(g))
 
@@ -217,6 +237,16 @@ def work_C01(run, rng, budget):
                 run.fail("string-differs-under-relabelling",
                          f"two listings of one molecule give {s0!r} and {s2!r}",
                          {"mol": mol_repr(m), "relabelled": mol_repr(m2), "perm": perm, "strings": [s0, s2]})
+        if rng.random() < 0.5:
+            c0, err = safe(canonicalize_molecule, mol_graph(m))
+            if c0 is not None:
+                for name, d in history_descriptions(mol_graph(m), c0, rng):
+                    s2, err = safe(tucan_of, d)
+                    run.case(("C01h", mol_repr(m), name), nontrivial)
+                    run.stats["history:" + name] += 1
+                    if s2 != s0:
+                        run.fail("string-differs-under-relabelling", f"description with a history ({name}): {s0!r} vs {s2!r}",
+                                 {"mol": mol_repr(m), "description": name, "graph": graph_summary(d), "strings": [s0, s2]})
         # the two descriptions as files: atom lines in another order with other index values, bond lines in
         # another order and orientation
         if m.n() <= 60 and rng.random() < 0.4:
@@ -313,8 +343,16 @@ def work_C04(run, rng, budget):
                          "canonical graphs of two listings of one molecule differ",
                          {"mol": mol_repr(m), "relabelled": mol_repr(m2), "perm": perm,
                           "nodes": [n0, n2], "edges": [sorted(map(sorted, e0)), sorted(map(sorted, e2))]})
+        for name, d in history_descriptions(mol_graph(m), c, rng):
+            c2, err = safe(canonicalize_molecule, d)
+            run.case(("C04h", mol_repr(m), name), m.n() >= 2)
+            run.stats["history:" + name] += 1
+            if err is not None or canon_maps(c2) != (n0, e0):
+                run.fail("canonical-graph-differs-under-relabelling", f"description with a history ({name})",
+                         {"mol": mol_repr(m), "description": name, "graph": graph_summary(d)})
         run.sample({"mol": mol_repr(m), "canonical_nodes": {k: list(v) for k, v in n0.items()}})
-    return "same generator as C01; for each molecule and 3 relabellings the node->(element, mass, radical, class) maps and " \
+    return "same generator as C01; descriptions that went through the library before (renumbered canonical graph, pre-existing " \
+           "partitions); for each molecule and 3 relabellings the node->(element, mass, radical, class) maps and " \
            "edge sets of the real canonical graphs are compared; non-trivial = >= 2 atoms and non-identity permutation"
 
 
@@ -552,9 +590,12 @@ def work_C05(run, rng, budget):
 
 def vary_nonidentity(m: G.Mol, rng) -> G.Mol:
     m2 = m.copy()
+    flat = rng.random() < 0.3   # a file without coordinates: atoms of one element have character-identical atom lines
     for a in m2.atoms:
         a["x"], a["y"], a["z"] = round(rng.uniform(-50, 50), 4), round(rng.uniform(-50, 50), 4), round(rng.uniform(-5, 5), 4)
-        if rng.random() < 0.4:
+        if flat:
+            a["x"] = a["y"] = a["z"] = 0.0
+        if rng.random() < (0.1 if flat else 0.4):
             a["chg"] = rng.choice([-2, -1, 1, 2])
         else:
             a.pop("chg", None)
@@ -1260,6 +1301,12 @@ def work_C13(run, rng, budget):
             if classes_by_tag(c2) != cls:
                 run.fail("classes-depend-on-labelling", "class of an atom changes with the numbering/listing",
                          {"mol": mol_repr(m), "relabelled": mol_repr(m2)})
+        for name, d in history_descriptions(g, c, rng):
+            c2, err = safe(canonicalize_molecule, d)
+            run.stats["history:" + name] += 1
+            if err is not None or classes_by_tag(c2) != cls:
+                run.fail("classes-depend-on-labelling", f"class of an atom changes for a description with a history ({name})",
+                         {"mol": mol_repr(m), "description": name, "graph": graph_summary(d)})
         # (b) equitable
         byc = {}
         for n, d in c.nodes(data=True):
